@@ -177,6 +177,22 @@ func c14union(c *h.Ctx, a, b maptile.Set) maptile.Set {
 	return out
 }
 
+// c14tilesOf is the tile of a point, or the two or four tiles it may be counted in when its image lies within 1e-6 tile of
+// a grid line.
+func c14tilesOf(p orb.Point, zoom maptile.Zoom) maptile.Set {
+	f := refFraction(p, zoom)
+	n := math.Exp2(float64(zoom))
+	out := maptile.Set{}
+	for _, dx := range []float64{-1e-6, 1e-6} {
+		for _, dy := range []float64{-1e-6, 1e-6} {
+			x, y := math.Floor(f[0]+dx), math.Floor(f[1]+dy)
+			x, y = math.Max(0, math.Min(n-1, x)), math.Max(0, math.Min(n-1, y))
+			out[maptile.Tile{X: uint32(x), Y: uint32(y), Z: zoom}] = true
+		}
+	}
+	return out
+}
+
 func sameSet(a, b maptile.Set) bool {
 	a, b = trueTiles(a), trueTiles(b)
 	if len(a) != len(b) {
@@ -400,16 +416,35 @@ func init() {
 					// points
 					mp := orb.MultiPoint(ls)
 					pc := tilecover.MultiPoint(mp, zoom)
-					want := maptile.Set{}
+					// ("its tile": the tile the point's mercator image lies in. For a point within 1e-6 tile of a grid line - the
+					// margin the property itself keeps from tile edges - either neighbour is its tile: which one is decided by the last
+					// bits of the projection, not by the point.)
+					allowedAll := maptile.Set{}
+					okMulti := true
 					for _, p := range mp {
-						f := refFraction(p, zoom)
-						want[maptile.Tile{X: uint32(f[0]), Y: uint32(f[1]), Z: zoom}] = true
-						if one := tilecover.Point(p, zoom); len(one) != 1 || !one[maptile.Tile{X: uint32(f[0]), Y: uint32(f[1]), Z: zoom}] {
-							c.Fail("", "the cover of a point is not its tile", map[string]interface{}{"point": sv(p), "zoom": z, "cover": setString(one)})
+						allowed := c14tilesOf(p, zoom)
+						for t := range allowed {
+							allowedAll[t] = true
 						}
+						one := tilecover.Point(p, zoom)
+						hit := false
+						for t, v := range one {
+							hit = hit || (v && allowed[t])
+						}
+						if len(trueTiles(one)) != 1 || !hit {
+							c.Fail("", "the cover of a point is not its tile", map[string]interface{}{"point": sv(p), "zoom": z, "cover": setString(one), "its_tile_or_tiles": setString(allowed)})
+						}
+						any := false
+						for t := range allowed {
+							any = any || pc[t]
+						}
+						okMulti = okMulti && any
 					}
 					c.Evals(len(mp) + 3)
-					if !sameSet(pc, want) {
+					for t, v := range pc {
+						okMulti = okMulti && (!v || allowedAll[t])
+					}
+					if !okMulti {
 						c.Fail("", "the cover of a multi-point is not exactly the tiles of its points", map[string]interface{}{"points": sv(mp), "zoom": z, "cover": setString(pc)})
 					}
 					if len(trueTiles(cover)) >= 2 {
@@ -556,14 +591,31 @@ func init() {
 					b := pg[0].Bound()
 					bc := tilecover.Bound(b, zoom)
 					lo, hi := refFraction(b.Min, zoom), refFraction(b.Max, zoom)
-					wantB := maptile.Set{}
-					for x := math.Floor(lo[0]); x <= math.Floor(hi[0]); x++ {
-						for y := math.Floor(hi[1]); y <= math.Floor(lo[1]); y++ {
-							wantB[maptile.Tile{X: uint32(x), Y: uint32(y), Z: zoom}] = true
+					// the range between the corners' tiles; a corner within 1e-6 tile of a grid line may be counted in either neighbour
+					const m = 1e-6
+					inner, outer := maptile.Set{}, maptile.Set{}
+					for x := math.Floor(lo[0] - m); x <= math.Floor(hi[0]+m); x++ {
+						for y := math.Floor(hi[1] - m); y <= math.Floor(lo[1]+m); y++ {
+							if x < 0 || y < 0 {
+								continue
+							}
+							t := maptile.Tile{X: uint32(x), Y: uint32(y), Z: zoom}
+							outer[t] = true
+							if x >= math.Floor(lo[0]+m) && x <= math.Floor(hi[0]-m) && y >= math.Floor(hi[1]+m) && y <= math.Floor(lo[1]-m) {
+								inner[t] = true
+							}
 						}
 					}
+					wantB := outer
 					c.Evals(4)
-					if !sameSet(bc, wantB) {
+					okB := true
+					for t := range inner {
+						okB = okB && bc[t]
+					}
+					for t, v := range bc {
+						okB = okB && (!v || outer[t])
+					}
+					if !okB {
 						c.Fail("", "the cover of a bound is not the tile range between its corners", map[string]interface{}{"bound": sv(b), "zoom": z, "cover": setString(bc), "want": setString(wantB)})
 					}
 					for t := range trueTiles(cover) {
